@@ -163,6 +163,8 @@ def check(run):
                 a, b = '"x"', rnd.choice(['1', 'A1', '"y"', 'TRUE', '#N/A', '(1)', 'SUM(1)', '{1}'])
             if a[-1] == '"' and b[0] == '"':
                 b = '7'              # "x""y" is one string with a doubled quote
+            if (a[-1].isalnum() or a[-1] in '_.') and b[0] == '(':
+                a = '"x"'            # name(1) is a function call, not two operands
             text = rnd.choice([a + b, '(' + a + ')' + b, a + '(' + b + ')' if not a[-1].isalnum() else '"q"(' + b + ')',
                                'SUM(' + a + b + ')', '1 2', '1 "a"', '"a" "b"', '(1)(2)', '(1)2', '"a"1', '1"a"', '#N/A#N/A', '1\n2', '1\n+\n"a"\n"b"'])
         elif cls == 'ragged-array':
